@@ -758,14 +758,45 @@ func runSystem(a *args) error {
 			for f := range env.seen {
 				all = unionFiles(all, []string{f})
 			}
-			for k := 0; k < 4; k++ {
+			for k := 0; k < 5; k++ {
 				keep := map[string]bool{}
 				for _, f := range all {
 					if r.Intn(2) == 0 {
 						keep[f] = true
 					}
 				}
-				if k >= 2 {
+				if k == 1 || k == 4 {
+					// per-module classes: what pruning one module's directory, a partially uploaded backup or a squash that
+					// stopped half-way leave: each module directory keeps all / none / only partial / only full snapshots /
+					// a prefix of its files; output files all / none / random
+					class := map[string]int{}
+					for _, f := range all {
+						parts := strings.Split(f, "/")
+						if len(parts) < 4 {
+							continue
+						}
+						dk := parts[1] + "/" + parts[2]
+						if _, ok := class[dk]; !ok {
+							class[dk] = r.Intn(6)
+						}
+						isPartial := strings.Contains(parts[3], ".partial")
+						switch class[dk] {
+						case 0:
+							keep[f] = true
+						case 1:
+							keep[f] = false
+						case 2:
+							keep[f] = parts[2] != "states" || isPartial
+						case 3:
+							keep[f] = parts[2] != "states" || !isPartial
+						case 4:
+							var hi uint64
+							fmt.Sscanf(parts[3], "%d-", &hi)
+							keep[f] = hi <= uint64(cfg.Start)+seg*2
+						}
+					}
+				}
+				if k == 2 || k == 3 {
 					// structured subsets: per store module keep ONLY partial snapshots or ONLY full snapshots (alternating by
 					// module, flipped between the two variants): what a crash in the middle of a multi-store squash leaves
 					for _, fr := range projectFiles(env, all) {
